@@ -19,6 +19,79 @@ use cw_multi_test::{
 use std::cell::RefCell;
 use std::collections::{BTreeMap, HashMap};
 
+use cosmwasm_std::testing::MockStorage;
+use cosmwasm_std::{Api, CanonicalAddr, RecoverPubkeyError, StdError, StdResult, VerificationError};
+use cw_multi_test::{
+    AppBuilder, BankKeeper, DistributionKeeper, FailingModule, GovFailingModule, IbcFailingModule, StakeKeeper,
+    StargateFailing, WasmKeeper,
+};
+
+/// the App type of the wasm slices, generic in the Api
+pub type AppOf<A> = App<
+    BankKeeper,
+    A,
+    MockStorage,
+    FailingModule<Empty, Empty, Empty>,
+    WasmKeeper<Empty, Empty>,
+    StakeKeeper,
+    DistributionKeeper,
+    IbcFailingModule,
+    GovFailingModule,
+    StargateFailing,
+>;
+
+/// Api of the `wasm-legacy` slice: plain names are valid addresses (as in cosmwasm-std 1.x), so
+/// that addresses of different lengths — one a prefix of another — can coexist.
+#[derive(Clone, Copy)]
+pub struct LegacyApi;
+
+impl Api for LegacyApi {
+    fn addr_validate(&self, human: &str) -> StdResult<Addr> {
+        if human.is_empty() || human.starts_with("bad") {
+            return Err(StdError::generic_err("invalid address"));
+        }
+        Ok(Addr::unchecked(human))
+    }
+    fn addr_canonicalize(&self, human: &str) -> StdResult<CanonicalAddr> {
+        self.addr_validate(human)?;
+        Ok(CanonicalAddr::from(human.as_bytes().to_vec()))
+    }
+    fn addr_humanize(&self, canonical: &CanonicalAddr) -> StdResult<Addr> {
+        String::from_utf8(canonical.as_slice().to_vec())
+            .map(Addr::unchecked)
+            .map_err(|_| StdError::generic_err("invalid canonical address"))
+    }
+    fn secp256k1_verify(&self, _: &[u8], _: &[u8], _: &[u8]) -> Result<bool, VerificationError> {
+        Ok(false)
+    }
+    fn secp256k1_recover_pubkey(&self, _: &[u8], _: &[u8], _: u8) -> Result<Vec<u8>, RecoverPubkeyError> {
+        Err(RecoverPubkeyError::unknown_err(0))
+    }
+    fn ed25519_verify(&self, _: &[u8], _: &[u8], _: &[u8]) -> Result<bool, VerificationError> {
+        Ok(false)
+    }
+    fn ed25519_batch_verify(&self, _: &[&[u8]], _: &[&[u8]], _: &[&[u8]]) -> Result<bool, VerificationError> {
+        Ok(false)
+    }
+    fn debug(&self, _: &str) {}
+}
+
+/// hands out `contract<instance>` like older versions of the crate
+pub struct LegacyGen;
+
+impl AddressGenerator for LegacyGen {
+    fn contract_address(&self, _api: &dyn Api, _storage: &mut dyn Storage, _code_id: u64, instance_id: u64) -> AnyResult<Addr> {
+        Ok(Addr::unchecked(format!("contract{}", instance_id)))
+    }
+}
+
+pub fn legacy_app() -> AppOf<LegacyApi> {
+    AppBuilder::new()
+        .with_api(LegacyApi)
+        .with_wasm(WasmKeeper::new().with_address_generator(LegacyGen))
+        .build(cw_multi_test::no_init)
+}
+
 thread_local! {
     static SYMS: RefCell<HashMap<String, String>> = RefCell::new(HashMap::new());
     static TRACE: RefCell<Vec<Vec<String>>> = RefCell::new(vec![vec![], vec![], vec![]]);
@@ -400,7 +473,7 @@ pub fn default_checksum(code_id: u64) -> Vec<u8> {
     cosmwasm_std::Checksum::generate(format!("contract code {}", code_id).as_bytes()).as_slice().to_vec()
 }
 
-pub fn salted_addr(app: &App, checksum: &[u8], creator_real: &str, salt: &[u8]) -> String {
+pub fn salted_addr<A: Api>(app: &AppOf<A>, checksum: &[u8], creator_real: &str, salt: &[u8]) -> String {
     use cosmwasm_std::Api;
     let mut st = cosmwasm_std::testing::MockStorage::new();
     let canon = match app.api().addr_canonicalize(creator_real) {
@@ -439,7 +512,7 @@ fn strip<'a>(k: &'a [u8], p: &[u8]) -> Option<&'a [u8]> {
     }
 }
 
-pub fn dump(app: &App) -> String {
+pub fn dump<A: Api>(app: &AppOf<A>) -> String {
     let mut bank: BTreeMap<String, String> = BTreeMap::new();
     let mut contracts: BTreeMap<String, String> = BTreeMap::new();
     let mut store: BTreeMap<String, Vec<(Vec<u8>, Vec<u8>)>> = BTreeMap::new();
@@ -490,7 +563,7 @@ pub fn dump(app: &App) -> String {
     format!("bank{{{}}} contracts{{{}}} store{{{}}} other{{{}}}", j(&bank), j(&contracts), st, other.join(";"))
 }
 
-fn raw_hash(app: &App) -> String {
+fn raw_hash<A: Api>(app: &AppOf<A>) -> String {
     use std::hash::{Hash, Hasher};
     let mut h = std::collections::hash_map::DefaultHasher::new();
     for (k, v) in app.storage().range(None, None, Order::Ascending) {
@@ -512,8 +585,33 @@ fn outcome<T>(r: Option<AnyResult<T>>, f: impl FnOnce(T) -> String) -> String {
 }
 
 pub fn exec_wasm(lines: &[String]) -> Vec<String> {
+    exec_wasm_on(vec![App::default(), App::default(), App::default()], compute_sym, lines)
+}
+
+fn compute_sym_legacy(_app: &AppOf<LegacyApi>, sym: &str) -> Option<String> {
+    if let Some(rest) = sym.strip_prefix('c') {
+        if let Some((c, i)) = rest.split_once('_') {
+            if c.parse::<u64>().is_ok() && i.parse::<u64>().is_ok() {
+                return Some(format!("contract{}", i));
+            }
+        }
+    }
+    if sym == "creator" {
+        // App::store_code always uses MockApi's address for the default creator
+        return Some(cosmwasm_std::testing::MockApi::default().addr_make("creator").to_string());
+    }
+    if sym.starts_with('u') || sym.starts_with('n') {
+        return Some(sym.to_string());
+    }
+    None
+}
+
+pub fn exec_wasm_legacy(lines: &[String]) -> Vec<String> {
+    exec_wasm_on(vec![legacy_app(), legacy_app(), legacy_app()], compute_sym_legacy, lines)
+}
+
+fn exec_wasm_on<A: Api>(mut apps: Vec<AppOf<A>>, sym_fn: fn(&AppOf<A>, &str) -> Option<String>, lines: &[String]) -> Vec<String> {
     reset_tls();
-    let mut apps: Vec<App> = vec![App::default(), App::default(), App::default()];
     let mut cur = 0usize;
     let mut out = vec![];
     for line in lines {
@@ -538,7 +636,7 @@ pub fn exec_wasm(lines: &[String]) -> Vec<String> {
             }
             "section" => "ok".into(),
             "bind" => {
-                let r = compute_sym(app, a(1)).unwrap_or_else(|| a(2).to_string());
+                let r = sym_fn(app, a(1)).unwrap_or_else(|| a(2).to_string());
                 bind_sym(a(1), &r);
                 format!("bound {}", r)
             }
